@@ -75,6 +75,8 @@ pub fn output_decls() -> Vec<(&'static str, &'static str)> {
         ("[out, missing]", "[{paths: [out, missing]}]"),
         ("[out]+[o,txt]", "[{paths: [out], extensions: [o, txt]}]"),
         ("[out/sub]+[o] and [out/y.txt]", "[{paths: [out/sub], extensions: [o]}, {paths: [out/y.txt]}]"),
+        ("[cur] (a symlink to a directory)", "[{paths: [cur]}]"),
+        ("[cfg.txt] (a symlink to a file)", "[{paths: [cfg.txt]}]"),
         ("none", "[]"),
     ]
 }
@@ -105,6 +107,11 @@ fn build_c12_tree(root: &Path, bits: usize, decl_yaml: &str, trace: &Path) {
     write(&root.join("uout/a.bin"), b"u output");
     write(&root.join("vout/b.bin"), b"v output");
     write(&root.join("keep/notes.txt"), b"unrelated");
+    // declared outputs that are symlinks: the link goes, what it points to stays
+    write(&root.join("releases/v1/app.bin"), b"release payload");
+    write(&root.join("cache/cfg-1.txt"), b"cached config");
+    std::os::unix::fs::symlink("releases/v1", root.join("cur")).unwrap();
+    std::os::unix::fs::symlink("cache/cfg-1.txt", root.join("cfg.txt")).unwrap();
     for (i, e) in OUT_ENTRIES.iter().enumerate() {
         if bits & (1 << i) == 0 {
             continue;
@@ -217,6 +224,12 @@ fn c12_expected_deleted(before: &BTreeMap<PathBuf, Node>, decl: usize, mode: &[&
             5 => {
                 filtered("out/sub", &["o"], &mut del, &mut dontcare);
                 plain("out/y.txt", &mut del)
+            }
+            6 => {
+                del.insert(PathBuf::from("cur"));
+            }
+            7 => {
+                del.insert(PathBuf::from("cfg.txt"));
             }
             _ => {}
         }
